@@ -276,9 +276,9 @@ pub fn run(run: &mut Run) {
     let max_ops = if run.tier == crate::engine::Tier::Quick { 24 } else { 64 };
     run.sub(
         "recursive_accesses",
-        "C01 histories on the running recursive mapper: every recursive page touched by a map/unmap/update_flags/set_flags/translate call must be one of r|r|r|r, r|r|r|p4, r|r|p4|p3, r|p4|p3|p2 of the call's page (independent formula), observed as fault addresses of the software MMU",
+        "C01 histories on the running recursive mapper: every recursive page touched by a map/unmap/update_flags/set_flags/translate call must be one of r|r|r|r, r|r|r|p4, r|r|p4|p3, r|p4|p3|p2 of the call's page and none below the table the call works on (4 KiB: all four, 2 MiB: down to r|r|p4|p3, 1 GiB and set_flags_p3_entry: down to r|r|r|p4, ...; independent formula), and a clean-up must reach every table that lies wholly inside its range, and that table's ancestors, through the recursive addresses of that table; observed as fault addresses of the software MMU",
         n,
-        mapper::map_case([10, 2, 5, 3, 3, 3, 3, 0, 0], max_ops),
+        mapper::map_case([10, 2, 5, 3, 3, 3, 3, 1, 4], max_ops),
         |c, obs| {
             let r = mapper::run_backend(c, mapper::Backend::Recursive, T_C20);
             obs.add_evals(c.ops.len() as u64);
